@@ -1,6 +1,6 @@
 (* Correspondence checkers for C08: the lexer model against tera::verif::lex, the specification
    against Tera::render_str, validate against Tera::set_delimiters. *)
-From TeraV Require Import Model.Value Model.Utf8 Model.Lexer Spec.Doc Model.LexerDoc.
+From TeraV Require Import Model.Value Model.Utf8Lex Model.Lexer Spec.Doc Model.LexerDoc.
 Local Open Scope N_scope.
 
 (* ---- syntactic equality on tokens and spans *)
